@@ -2516,9 +2516,10 @@ fn gen_c13(o: &mut Out, _r: &mut Rng, tier: &str) {
                             o.case(&format!("cell ctls={} verify={} stls={} cert={} addr={}", ctls, verify, stls, cert, addr));
                             o.line(&format!("tls ctls={} verify={} stls={} cert={} addr={} id={} cmd={}", ctls, verify, stls, cert, addr, id, cmd));
                             if cert == "good" && addr == "ip" && verify == 1 && !(ctls == 1 && stls == 0) {
-                                // the same cell reached through well-known port numbers (Diameter, Diameter over TLS, HTTPS):
+                                // the same cell reached through well-known port numbers (Diameter over TLS, HTTPS, Diameter over SCTP/DTLS; not 3868:
+                                // the crate's own test suite binds it):
                                 // the configuration decides how the connection is protected, the port number does not
-                                for port in [3868u16, 5658, 443] {
+                                for port in [5658u16, 443, 5868] {
                                     id += 1;
                                     o.case(&format!("cell ctls={} verify={} stls={} cert={} addr={} port={}", ctls, verify, stls, cert, addr, port));
                                     o.line(&format!("tls ctls={} verify={} stls={} cert={} addr={} id={} cmd={} port={}", ctls, verify, stls, cert, addr, id, cmd, port));
